@@ -404,7 +404,178 @@ def gen_case(rng, size=1.0, force=None):
         s, c, p, _ = rng.choice(pref[:3])
         i, j = sorted(rng.sample(range(ploidy), 2))
         case["swap"] = {"sample": s, "chrom": c, "ps": p, "i": i, "j": j}
+    if not force.get("no_boundary"):
+        add_boundary_reads(case)
     return case
+
+
+# ------------------------------------------------------------------------------------------------
+# boundary reads: alignments whose FIRST and/or LAST aligned base is exactly a phased heterozygous SNV
+# ------------------------------------------------------------------------------------------------
+
+def is_snv(v):
+    return len(v["ref"]) == 1 and len(v["alt"]) == 1
+
+
+def make_boundary_alignment(refseq, variants, alleles, start, end, pin_start, pin_end):
+    """error-free copy of the allele vector over exactly [start,end) where a pinned end is the position of an SNV (the SNV is
+    the first / last aligned base: the read covers it fully) and a free end keeps the 3-base flank of make_alignment.
+    Returns (start, cigar, seq, truth) with the boundary SNVs IN the truth, or None"""
+    pinned = ({start} if pin_start else set()) | ({end - 1} if pin_end else set())
+    s2, e2 = adjust_interval([v for v in variants if v["pos"] not in pinned], start, end)
+    if (pin_start and s2 != start) or (pin_end and e2 != end):
+        return None
+    start, end = s2, e2
+    if end - start < 2:
+        return None
+    vs = [sim.Variant("", v["pos"], v["ref"], v["alt"], "") for v in variants]
+    hr = sim.hap_read(refseq, vs, alleles, start, end)
+    if hr is None or hr[0] != start:
+        return None
+    st, cigar, seq, covered = hr
+    if ref_end(st, cigar) != end:
+        return None
+    covered = list(covered)
+    for i, v in enumerate(variants):
+        if i in covered:
+            continue
+        if is_snv(v) and (v["pos"] == start or v["pos"] == end - 1):
+            covered.append(i)
+        elif pin_start and v["pos"] == start:
+            # the read begins on the anchor base of an indel / the first base of a longer variant: covered when the whole REF
+            # span and a flank behind it are aligned
+            if v["pos"] + len(v["ref"]) + 3 > end:
+                return None
+            covered.append(i)
+    covered.sort()
+    return st, [list(c) for c in cigar], seq, [[i, alleles[i]] for i in covered]
+
+
+def add_boundary_reads(case):
+    """For every read group of a VCF sample and every contig: a few alignments whose first and/or last aligned base is exactly
+    a phased heterozygous SNV of that sample (also behind a leading soft/hard clip, as the second mate, as a supplementary
+    record), built so that the boundary variant DECIDES the tag: it is the only variant of the read ('only'), it makes the scores
+    tie ('tie'), it is the deciding vote of a 2:1 majority ('majority'), or it only adds to PC ('support').  The alleles go into
+    `truth` like every other fully covered variant.  The random choices come from a generator seeded by the case content, so the
+    stream of the main generator (and with it every older case) is unchanged."""
+    import random, zlib
+    rng = random.Random(zlib.crc32(repr((sorted(case["contigs"].items()), len(case["alns"]), case["ploidy"])).encode()))
+    ploidy = case["ploidy"]
+    o = case["opts"]
+    no_rg = case["read_groups"] is None
+    n = 0
+    for rg_id, s in (case["read_groups"] or [[None, sm] for sm in case["vcf_samples"][:1]]):
+        if s not in case["phasing"]:
+            continue
+        for chrom, refseq in case["contigs"].items():
+            vs = case["variants"].get(chrom) or []
+            if chrom == "chrE" or chrom not in case["phasing"][s]:
+                continue
+            ph = case["phasing"][s][chrom]
+            haps = ph["haps"]
+            L = len(refseq)
+            phased = [i for i, v in enumerate(vs) if ph["ps"][i] is not None and len({haps[h][i] for h in range(ploidy)}) > 1]
+            cand = [i for i in phased if is_snv(vs[i])]
+            if not cand:
+                continue
+            # a read may also BEGIN on the anchor base of a phased indel (it then covers the whole REF span); with --no-reference the
+            # variants are re-normalised (anchor stripped), so there only SNVs are pinned
+            cand_start = phased if not o.get("no_reference") else cand
+            for _ in range(rng.randrange(2, 6)):
+                side = rng.choice(["start", "start", "start", "end", "end", "both"])
+                b = rng.choice(cand_start if side != "end" else cand)
+                kind = rng.choice(["only", "only", "tie", "majority", "majority", "support"])
+                n_other = {"only": 0, "tie": 1, "majority": 2, "support": rng.randrange(1, 4)}[kind]
+                h = rng.randrange(ploidy)
+                h2 = rng.choice([x for x in range(ploidy) if x != h])
+                alleles = list(haps[h])
+                k = phased.index(b)
+                right = side != "end"
+                others = phased[k + 1:k + 1 + n_other] if right else phased[max(0, k - n_other):k]
+                if kind == "tie":
+                    for i in others:
+                        alleles[i] = haps[h2][i]
+                elif kind == "majority" and others:
+                    j = rng.choice(others)           # one of the two others votes for h2, the other one and the boundary variant for h
+                    alleles[j] = haps[h2][j]
+                # the interval: pinned end(s) on SNVs, the free end in the gap behind the last wanted variant
+                if side == "both":
+                    later = [i for i in cand if i > b][:3]
+                    if not later:
+                        side = "start"
+                if side == "both":
+                    e_i = rng.choice(later)
+                    start, end = vs[b]["pos"], vs[e_i]["pos"] + 1
+                    if kind == "tie":
+                        alleles[e_i] = haps[h2][e_i]
+                elif side == "start":
+                    start = vs[b]["pos"]
+                    last = others[-1] if others else b
+                    nxt = vs[last + 1]["pos"] if last + 1 < len(vs) else None
+                    lo = vs[last]["pos"] + len(vs[last]["ref"]) + 3
+                    hi = (nxt - 3) if nxt is not None else min(L, lo + 60)
+                    end = rng.randrange(lo, max(lo + 1, hi + 1))
+                    end = max(end, start + 12) if kind != "only" else end
+                else:
+                    end = vs[b]["pos"] + 1
+                    first = others[0] if others else b
+                    prv = (vs[first - 1]["pos"] + len(vs[first - 1]["ref"])) if first > 0 else None
+                    hi = vs[first]["pos"] - 3
+                    lo = (prv + 3) if prv is not None else max(0, hi - 60)
+                    start = rng.randrange(lo, max(lo + 1, hi + 1))
+                m = make_boundary_alignment(refseq, vs, alleles, start, min(end, L), side != "end", side != "start")
+                if m is None:
+                    continue
+                st, cigar, seq, truth = m
+                # clips: the variant stays the first / last ALIGNED base
+                clip = ""
+                if side != "end" and rng.random() < 0.4:
+                    c = rng.randrange(1, 9)
+                    if rng.random() < 0.6:
+                        cigar = [[4, c]] + cigar; seq = sim.random_seq(rng, c) + seq; clip += "S"
+                    else:
+                        cigar = [[5, c]] + cigar; clip += "H"
+                if side != "start" and rng.random() < 0.4:
+                    c = rng.randrange(1, 9)
+                    if rng.random() < 0.6:
+                        cigar = cigar + [[4, c]]; seq = seq + sim.random_seq(rng, c); clip += "s"
+                    else:
+                        cigar = cigar + [[5, c]]; clip += "h"
+                n += 1
+                qname = f"bnd{n}_{s}"
+                role = rng.choice(["single", "single", "single", "mate2", "mate2", "mate1", "supp"])
+                qual = rng.choice([30, 30, 20, 40] + ([0, 11] if o.get("no_reference") else []))
+                base = {"name": qname, "rg": None if no_rg else rg_id, "qual": qual, "sample": s, "chrom": chrom}
+                strand = FLAG_REV if rng.random() < 0.5 else 0
+                rec = dict(base, start=st, cigar=cigar, seq=seq, flag=strand, mapq=rng.choice([60, 60, 20]), truth=truth, tags=[])
+                partner = None
+                if role != "single":
+                    # the partner record: an ordinary alignment (3-base flanks) of the same haplotype copy somewhere near
+                    pl = rng.randrange(40, 160)
+                    pst = max(0, min(L - pl, st + rng.choice([-1, 1]) * rng.randrange(60, 300)))
+                    pm = make_alignment(refseq, vs, alleles, pst, min(L, pst + pl))
+                    if pm is not None:
+                        partner = dict(base, start=pm[0], cigar=pm[1], seq=pm[2], flag=0, mapq=60, truth=pm[3], tags=[])
+                    else:
+                        role = "single"
+                if role in ("mate1", "mate2"):
+                    first, second = (rec, partner) if role == "mate1" else (partner, rec)
+                    rev1 = bool(rec["flag"] & FLAG_REV) if role == "mate1" else not (rec["flag"] & FLAG_REV)
+                    first["flag"] = FLAG_PAIRED | FLAG_PROPER | FLAG_R1 | (FLAG_REV if rev1 else 0) | (0 if rev1 else FLAG_MREV)
+                    second["flag"] = FLAG_PAIRED | FLAG_PROPER | FLAG_R2 | (0 if rev1 else FLAG_REV) | (FLAG_MREV if rev1 else 0)
+                    first["mate"] = {"chrom": chrom, "start": second["start"]}
+                    second["mate"] = {"chrom": chrom, "start": first["start"]}
+                elif role == "supp":
+                    # the boundary record is the supplementary one (same strand as its primary: used by create_read_from_group)
+                    partner["flag"] = strand
+                    rec["flag"] = strand | FLAG_SUPP
+                    rec["tags"] = [["SA", f"{chrom},{partner['start'] + 1},+,50M,60,0;"]]
+                rec["bnd"] = {"side": side, "kind": kind, "clip": clip or "-", "role": role, "snv": all(is_snv(vs[i]) for i in ([b] if side != "end" else [])),
+                              "pos": [vs[i]["pos"] for i, _ in truth if vs[i]["pos"] in (st, ref_end(st, rec["cigar"]) - 1)]}
+                case["alns"].append(rec)
+                if partner is not None:
+                    case["alns"].append(partner)
+    case["boundary_reads"] = n
 
 
 def gen_region(rng, chrom, L, variants):
